@@ -253,11 +253,17 @@ def size_formulas(ctx, L):
     if len(endm) != 1:
         raise AnalysisError('evaluate_struct_size: end-padding branch of dynamic structs not found')
     dyn_branch = endm[0].body if not (isinstance(endm[0].test, ast.UnaryOp)) else endm[0].orelse
-    vals = [b.value for b in ast.walk(ast.Module(body=dyn_branch, type_ignores=[])) if isinstance(b, ast.Assign)
+    wrap = ast.Module(body=dyn_branch, type_ignores=[])
+    vals = [b.value for b in ast.walk(wrap) if isinstance(b, ast.Assign)
             and isinstance(b.targets[0], ast.Attribute) and b.targets[0].attr == 'padding']
-    val = vals[0] if len(vals) == 1 else None
-    deps = set(n.attr for n in ast.walk(val) if isinstance(n, ast.Attribute)) | set(n.id for n in ast.walk(val) if isinstance(n, ast.Name)) if val is not None else set()
-    L.check('byte_size' in deps or ws(unparse(val)) == '-alignment', 'F16.end-padding-depends-on-size',
+    # what the marker depends on: the stored value(s) and the tests that select between them (a conditional expression and the
+    # if statement it is in normal form are the same thing)
+    sel = [n.test for n in ast.walk(wrap) if isinstance(n, (ast.If, ast.IfExp))]
+    deps = set()
+    for e in vals + sel:
+        deps |= set(n.attr for n in ast.walk(e) if isinstance(n, ast.Attribute)) | set(n.id for n in ast.walk(e) if isinstance(n, ast.Name))
+    val = vals[0] if vals else None
+    L.check(bool(vals) and ('byte_size' in deps or all(ws(unparse(v)) == '-alignment' for v in vals)), 'F16.end-padding-depends-on-size',
             'evaluate_struct_size|dynamic-end-padding', ss.site(endm[0]),
             'the end padding marker of a dynamic struct is computed from alignments only (`%s`): a last member whose size is not a '
             'multiple of its alignment (an optional: flag 4 + value 1) leaves the struct end unaligned - {u8 x<>; u8* o}: the C++ '
